@@ -353,7 +353,7 @@ struct SV {
 
     void op_erase()
     {
-        unsigned w    = ch.pick(4);
+        unsigned w    = ch.pick(5);
         std::size_t L = m.size();
         switch (w) {
         case 0: { // erase(pos)
@@ -387,6 +387,17 @@ struct SV {
             auto re = etl::erase(e, x);
             auto rs = std::erase(m, v);
             CV("erase(c,value)", v);
+            vf::eq_int("ret", re, rs);
+            break;
+        }
+        case 3: { // free erase_if with a STATEFUL predicate (removes at most k matches): the predicate must be applied exactly once per element
+            int v = draw_val();
+            int k = (int)ch.pick(3);
+            int budget_e = k, budget_m = k;
+            CR("erase_if(c,stateful-pred)", sit(k == 0 ? "budget=0" : "budget>0"), "m=%s pred=(==%d, at most %d)", show(m).c_str(), v, k);
+            auto re = etl::erase_if(e, [&](T const& t) { return val(t) == v && budget_e-- > 0; });
+            auto rs = std::erase_if(m, [&](int x) { return x == v && budget_m-- > 0; });
+            CV("erase_if(c,stateful-pred)", vf::mix(v, k));
             vf::eq_int("ret", re, rs);
             break;
         }
